@@ -20,4 +20,59 @@ contract("C10.handle_onset_or_offset",
                                      " and result[0].severity == 1 and same_keys(self._onsets, old(self._onsets)))",
              "C10.inset": "implies(kind == 'Inset', same_keys(self._onsets, old(self._onsets)) and (len(result) == 0) == was_open"
                           " and implies(not was_open, result[0].code == 'TEMPORAL_TAG_ERROR' and result[0].severity == 1))",
+             "C10.handler.only_unmatched_kinds": "all_in(result, lambda x: x.kind == 'OFFSET_BEFORE_ONSET' or x.kind == 'INSET_BEFORE_ONSET')",
          })
+
+# ---- markers of one time point: "using the same name twice among the markers of one time point is reported once per extra use"
+class_model("MarkerString", {})
+try:
+    import z3
+    from pyvc.contract import EXTERNS
+    from pyvc.vals import SV, TList, TTuple, TRef, sort_of
+
+    def _markers_of(interp, args, kwargs):
+        ty = TList(TTuple(TRef("HedTag"), TRef("HedGroup")))
+        f = z3.Function("temporal_markers_of", z3.IntSort(), sort_of(ty))
+        return interp.ctx.wrap(f(args[0].t), ty).sym
+    EXTERNS["temporal_markers_of"] = _markers_of
+except ImportError:
+    pass
+
+contract("C10.find_top_level_tags", file="hed/models/hed_string.py", func="HedString.find_top_level_tags",
+         params={"self": "HedString", "anchor_tags": "Opaque", "include_groups": "Int"}, returns="List[Tuple[HedTag,HedGroup]]",
+         enc="native", trusted=True, ensures={"named": "result == temporal_markers_of(self)"})
+contract("C10.find_def_tags", file="hed/models/hed_group.py", func="HedGroup.find_def_tags",
+         params={"self": "HedGroup", "recursive": "Bool", "include_groups": "Int"}, returns="List[HedTag]", enc="native", trusted=True,
+         ensures={"named": "result == def_tags_of(self)"})
+
+NAME = "def_tags_of(M[{k}][1])[0].extension.casefold()"
+contract("C10.validate_temporal_relations",
+         file="hed/validator/onset_validator.py", func="OnsetValidator.validate_temporal_relations",
+         params={"self": "OnsetValidator", "hed_string_obj": "HedString"}, returns="List[Issue]", enc="native",
+         requires=["all(temporal_markers_of(hed_string_obj)[k][0].short_base_tag == 'Onset' or temporal_markers_of(hed_string_obj)[k][0].short_base_tag == 'Offset'"
+                   " or temporal_markers_of(hed_string_obj)[k][0].short_base_tag == 'Inset' for k in range(len(temporal_markers_of(hed_string_obj))))"],
+         modifies=["heap:OnsetValidator._onsets"],
+         locals={"onset_issues": "List[Issue]", "used_def_names": "Set[Str]"},
+         lets={"M": "temporal_markers_of(hed_string_obj)"},
+         ensures={
+             # a marker whose (case-insensitive) name was already used by an earlier marker of this time point is reported, at its own tag
+             "C10.same_name.every_extra_use_reported": "all(implies(len(def_tags_of(M[k][1])) > 0 and any(len(def_tags_of(M[j][1])) > 0 and "
+                 + NAME.format(k="j") + " == " + NAME.format(k="k") + " for j in range(k)),"
+                 " any_in(result, lambda x: x.kind == 'ONSET_SAME_DEFS_ONE_ROW' and x.code == 'TEMPORAL_TAG_ERROR' and x.source_tag == M[k][0]))"
+                 " for k in range(len(M)))",
+             "C10.same_name.first_use_not_reported": "all_in(result, lambda x: implies(x.kind == 'ONSET_SAME_DEFS_ONE_ROW', x.has_source_tag and any("
+                 "x.source_tag == M[k][0] and len(def_tags_of(M[k][1])) > 0 and any(len(def_tags_of(M[j][1])) > 0 and "
+                 + NAME.format(k="j") + " == " + NAME.format(k="k") + " for j in range(k)) for k in range(len(M)))))",
+         },
+         loops={0: {"havoc_fields": [["OnsetValidator", "_onsets"]], "invariant": [
+             "forall_str(lambda s: (s in used_def_names) == any(len(def_tags_of(temporal_markers_of(hed_string_obj)[j][1])) > 0 and "
+             "def_tags_of(temporal_markers_of(hed_string_obj)[j][1])[0].extension.casefold() == s for j in range(_n)))",
+             "all(implies(len(def_tags_of(temporal_markers_of(hed_string_obj)[k][1])) > 0 and any(len(def_tags_of(temporal_markers_of(hed_string_obj)[j][1])) > 0 and "
+             "def_tags_of(temporal_markers_of(hed_string_obj)[j][1])[0].extension.casefold() == def_tags_of(temporal_markers_of(hed_string_obj)[k][1])[0].extension.casefold() for j in range(k)),"
+             " any_in(onset_issues, lambda x: x.kind == 'ONSET_SAME_DEFS_ONE_ROW' and x.code == 'TEMPORAL_TAG_ERROR' and x.source_tag == temporal_markers_of(hed_string_obj)[k][0]))"
+             " for k in range(_n))",
+             "all_in(onset_issues, lambda x: implies(x.kind == 'ONSET_SAME_DEFS_ONE_ROW', x.has_source_tag and any("
+             "x.source_tag == temporal_markers_of(hed_string_obj)[k][0] and len(def_tags_of(temporal_markers_of(hed_string_obj)[k][1])) > 0 and any(len(def_tags_of(temporal_markers_of(hed_string_obj)[j][1])) > 0 and "
+             "def_tags_of(temporal_markers_of(hed_string_obj)[j][1])[0].extension.casefold() == def_tags_of(temporal_markers_of(hed_string_obj)[k][1])[0].extension.casefold() for j in range(k)) for k in range(_n))))",
+         ]}},
+         assume=["HedString.find_top_level_tags / HedGroup.find_def_tags are deterministic views (temporal_markers_of, def_tags_of)"])
